@@ -14,7 +14,8 @@ import props.common  # noqa: F401  (silences warnings)
 RULE = (
     "matrices: every level count n in the bound x every built-in contrast with every option value (treatment/SAS with "
     "the default and each of the n levels as base, sum, Helmert x reverse x scale, diff x backward, poly without scores and "
-    "with 4 score vectors) x label type (sorted str, int, unsorted str) x {Contrasts, ContrastsState} entry point; each "
+    "with 4 score vectors) x label type (sorted str; int incl. 0 and a negative; unsorted str incl. the empty string; bool) "
+    "x {Contrasts, ContrastsState} entry point; each "
     "execution inspects reduced and full rank, dense and sparse, coding and coefficient matrix and apply() on the identity "
     "for the 3 output kinds.  encode / formula: every data vector up to the length bound over the declared levels + null "
     "(+ a value outside the list when levels= is explicit) x every contrast valid for the resulting level count x label "
@@ -45,13 +46,21 @@ SCORE_KINDS = ["affine", "squares", "neg", "half"]
 # labels, specs
 
 def labels(kind, n):
+    """level labels.  The label values are chosen so that a label can be *falsy* (0, "", False) and sit anywhere but
+    the default reference position: code that tests a chosen base with `if not base` / `base or default` instead of
+    comparing with the UNSET sentinel must not get away with it."""
     base = list("abcdefghijklmnop")[:n]
     if kind == "str":
         return base
     if kind == "int":
-        return [5 + 10 * i for i in range(n)]      # numeric order differs from the order of their string forms
+        # numeric order differs from the order of the string forms; 0 is the first level for n == 2 (SAS default is the
+        # last) and the second level otherwise (neither default)
+        return [0, 5] if n == 2 else ([-10, 0] + [5 + 10 * i for i in range(n)])[:n]
     if kind == "mixed":
-        return base[1::2] + base[0::2]             # explicit, unsorted level order
+        b = [""] + base[1:]                        # explicit, unsorted level order containing the empty string:
+        return b[1::2] + b[0::2]                   # ['']  ['b','']  ['b','','c']  ['b','d','','c'] ...
+    if kind == "bool":
+        return [True, False][:n]
     raise KeyError(kind)
 
 
@@ -248,7 +257,9 @@ class Reporter:
 
 def drv_matrices(c, ctx, col):
     n = 1 + c.upto(ctx["nmax"] - 1)
-    lkind = c.pick(["str", "int", "mixed"])
+    lkind = c.pick(["str", "int", "mixed", "bool"])
+    if lkind == "bool" and n > 2:
+        raise Skip()
     spec = c.pick(specs_for(n))
     via_state = c.flag()
     levels = labels(lkind, n)
@@ -596,7 +607,7 @@ def subchecks(tier, seed):
     alpha = "declared levels + null (+ a value outside the list when levels= is explicit)"
     subs = [
         Sub("matrices", drv_matrices, {"nmax": nmax}, shard_depth=3,
-            bounds={"levels": "1..%d" % nmax, "label_types": ["str", "int", "mixed"], "entry": ["Contrasts", "ContrastsState"],
+            bounds={"levels": "1..%d" % nmax, "label_types": ["str a,b,..", "int -10,0,5,15.. ([0,5] for n=2)", "unsorted str with the empty string", "bool (n <= 2)"], "entry": ["Contrasts", "ContrastsState"],
                     "poly_scores": [None] + SCORE_KINDS}),
         Sub("encode", drv_encode, {"L_by_n": enc_L, "thin_from": enc_thin}, shard_depth=6,
             bounds={"declared_levels": "1..4", "max_data_length_by_declared_levels": enc_L, "alphabet": alpha,
